@@ -23,6 +23,8 @@ for r in rows:
         subprocess.run(['git','-C','/repo','worktree','add','--detach',wt,PIN],capture_output=True,check=True)
         a=subprocess.run(['git','-C',wt,'apply',V+'/seeded/'+sid+'/patch.diff'],capture_output=True,text=True)
         if a.returncode!=0:
+            a=subprocess.run(['git','-C',wt,'apply','-3',V+'/seeded/'+sid+'/patch.diff'],capture_output=True,text=True)
+        if a.returncode!=0:
             print(sid,'PATCH DOES NOT APPLY',a.stderr.strip()[:200]); continue
         caught={}
         # checks worth running: the seed's own property, every property tagged in the contract files of the touched
